@@ -909,6 +909,7 @@ func runC07(args []string) {
 		tier = args[0]
 	}
 	rng := newPrng(7)
+	c07OneInterpreter()
 	t0s := []float64{0, 1, 1000, 37.5, 1e300, 5e-324, 2.2250738585072014e-308, 0.1}
 	as := []float64{0, 0.5, 0.95, 0.99, 1, 1e-200, 0.1, 0.9999999999999999}
 	pick := func(c *c07Case) {
